@@ -95,6 +95,25 @@ fn classify(rel: &str) -> (String, i64) {
     }
 }
 
+/// the client's temporary ancillary directory is named after a random download id
+fn scrub_id(s: &str) -> String {
+    let mut out = String::new();
+    let mut rest = s;
+    while let Some(i) = rest.find("ancillary-") {
+        let after = &rest[i + 10..];
+        let is_uuid = after.len() >= 36 && after.as_bytes()[..36].iter().all(|b| b.is_ascii_hexdigit() || *b == b'-');
+        out.push_str(&rest[..i + 10]);
+        if is_uuid {
+            out.push_str("<id>");
+            rest = &after[36..];
+        } else {
+            rest = after;
+        }
+    }
+    out.push_str(rest);
+    out
+}
+
 fn tagged(src: &str, rel: &str) -> Vec<u8> {
     format!("{TAG} src={src} path={rel}\n").into_bytes()
 }
@@ -486,7 +505,7 @@ impl Runner {
                 None => false,
             };
             kept.push(json!({
-                "ev": "Kept", "case": ix, "path": rel.chars().take(60).collect::<String>(), "cls": cls, "num": num, "kind": kind,
+                "ev": "Kept", "case": ix, "path": scrub_id(&rel).chars().take(60).collect::<String>(), "cls": cls, "num": num, "kind": kind,
                 "origin": origin, "from": from, "heldBefore": held_before, "vouched": vouched,
                 "kgroup": kgroup, "whitelisted": whitelisted, "ancManifest": anc_manifest_class,
                 "lo": c.lo, "hi": c.hi, "includeAnc": c.anc, "ancGenuine": anc_genuine, "res": res,
@@ -499,7 +518,7 @@ impl Runner {
         if !pred_match {
             self.bump("prediction_mismatches");
         }
-        let err_short: String = err.chars().take(300).collect::<String>().replace(base.to_string_lossy().as_ref(), "<case>");
+        let err_short: String = scrub_id(&err.replace(base.to_string_lossy().as_ref(), "<case>")).chars().take(300).collect();
         let mut diff = json!([]);
         if let (false, Some(pf)) = (pred_match, &c.pred_final) {
             let all: BTreeSet<&String> = pf.keys().chain(real_final.keys()).collect();
